@@ -303,6 +303,18 @@ impl BloomFilter {
     fn get_bit_index(&self, h1: u64, h2: u64, i: usize) -> usize {
         (h1.wrapping_add((i as u64).wrapping_mul(h2)) % (self.num_bits as u64)) as usize
     }
+
+    /// Verification accessor: the `(h1, h2)` pair `insert`/`might_contain` derive from `value`.
+    #[cfg(inputlayer_verif)]
+    pub fn verif_hash_pair<T: Hash>(&self, value: &T) -> (u64, u64) {
+        self.hash_pair(value)
+    }
+
+    /// Verification accessor: the raw bit array (read-only).
+    #[cfg(inputlayer_verif)]
+    pub fn verif_bits(&self) -> &[u64] {
+        &self.bits
+    }
 }
 
 /// Builder for creating Bloom filters with fluent API.
